@@ -95,6 +95,11 @@ WireName(role, style, i) == StyleTab[role][style][i][2]
 \* a key map is usable only when it is a bijection between python names and wire keys (the property's quantifier)
 KeysBijective(c) ==
   \A i, j \in 1..Len(c.fields) : i # j => (c.fields[i].py # c.fields[j].py /\ c.fields[i].wire # c.fields[j].wire)
+\* Class identity is the table key.  DISTINCT classes may share their python name (`__module__` + `__qualname__`):
+\* models returned by a factory (`page_of(User)` / `page_of(Order)` are both `page_of.<locals>.Page`),
+\* `make_dataclass` under a fixed name, a reloaded model module.  An entry may carry `pyname`; default = its key.
+PyClsName(cl, n) == IF "pyname" \in DOMAIN cl[n] THEN cl[n].pyname ELSE n
+
 MetaConsistent(c) == c.meta = "none" => \A i \in 1..Len(c.fields) : c.fields[i].py = c.fields[i].wire
 
 ----------------------------------------------------------------------------
@@ -390,6 +395,23 @@ Unstructure(cl, c, nested) ==
   /\ hooks' = hooks \cup (IF c.ty.k = "cls" THEN {<<"u", n>> : n \in Targets(cl, c.ty, nested)} ELSE {})
   /\ last'  = [t |-> "call", id |-> c.id, res |-> ResultOf(cl, hooks', c)]
   /\ hist'  = Append(hist, c.id)
+
+\* A DEFECTIVE design kept to show that HistoryIndependent bites on same-named classes: the structure function is
+\* cached under the class's python NAME, so a class is decoded with the definition of the first same-named class
+\* any earlier (or this) structure call registered.
+FirstNamed(cl, calls, h, n) ==
+  LET same(m) == PyClsName(cl, m) = PyClsName(cl, n)
+      callOf(i) == CHOOSE x \in calls : x.id = h[i]
+      hits == {i \in 1..Len(h) : callOf(i).op = "S" /\ \E m \in Reach(cl, callOf(i).ty) : same(m)}
+  IN IF hits = {} THEN n
+     ELSE LET ms == {m \in Reach(cl, callOf(Min(hits)).ty) : same(m)}
+          IN IF n \in ms THEN n ELSE CHOOSE m \in ms : TRUE
+ByName(cl, calls, h) == [n \in DOMAIN cl |-> cl[FirstNamed(cl, calls, h, n)]]
+StructureByName(cl, calls, c) ==
+  /\ c.op = "S"
+  /\ hooks' = hooks \cup {<<"s", n>> : n \in Reach(cl, c.ty)}
+  /\ hist'  = Append(hist, c.id)
+  /\ last'  = [t |-> "call", id |-> c.id, res |-> Dec(ByName(cl, calls, hist'), Registered(cl, "s", hooks'), c.ty, c.arg)]
 
 HooksOnlyGrow == [][hooks \subseteq hooks']_<<hooks, hist, last>>
 
